@@ -175,6 +175,33 @@ fn main() {
         if line.trim().is_empty() {
             continue;
         }
+        // match mode: "M<TAB><json pattern><TAB><json text>[<TAB><json text>...]" -> {"m":[bool,...]}
+        if let Some(rest) = line.strip_prefix("M\t") {
+            let mut parts = rest.split('\t');
+            let pat = parts.next().and_then(unescape_json);
+            let re = pat.as_ref().and_then(|p| regex::Regex::new(p).ok());
+            match re {
+                None => {
+                    writeln!(out, "{{\"error\":\"bad pattern\"}}").unwrap();
+                }
+                Some(re) => {
+                    let res: Vec<&str> = parts
+                        .map(|t| match unescape_json(t) {
+                            Some(tx) => {
+                                if re.is_match(&tx) {
+                                    "true"
+                                } else {
+                                    "false"
+                                }
+                            }
+                            None => "null",
+                        })
+                        .collect();
+                    writeln!(out, "{{\"m\":[{}]}}", res.join(",")).unwrap();
+                }
+            }
+            continue;
+        }
         let pat = match unescape_json(&line) {
             Some(p) => p,
             None => {
